@@ -130,36 +130,6 @@ Proof. exact (@glue_mask_onehot_guard_atoms). Qed.
 Print Assumptions C09_tie_mask_guard_atoms.
 
 Theorem C09_tie_mask_dataflow :
-  p_mask.p_mask =
-       ["lens_to_mask:seq < lens[:, None] ; seq=torch.arange(max_length, device=lens.device)";
-        "EuclideanCodebook.forward:mask = repeat(mask, 'b n -> c (b h n)', c=flatten.shape[0], h=flatten.shape[-2] // (mask.shape[0] * mask.shape[1]))";
-        "EuclideanCodebook.forward:embed_onehot[~mask] = 0.0";
-        "EuclideanCodebook.forward:self.init_embed_(flatten, mask=mask)";
-        "EuclideanCodebook.forward:self.expire_codes_(x, mask=mask)";
-        "EuclideanCodebook.init_embed_:data = rearrange(data[mask], '(c n) d -> c n d', c=c)";
-        "EuclideanCodebook.expire_codes_:batch_samples = rearrange(batch_samples[mask], '(c n) d -> c n d', c=c)";
-        "CosineSimCodebook.forward:mask = repeat(mask, 'b n -> c (b h n)', c=flatten.shape[0], h=flatten.shape[-2] // (mask.shape[0] * mask.shape[1]))";
-        "CosineSimCodebook.forward:embed_onehot[~mask] = 0.0";
-        "CosineSimCodebook.forward:self.init_embed_(flatten, mask=mask)";
-        "CosineSimCodebook.forward:self.expire_codes_(x, mask=mask)";
-        "CosineSimCodebook.init_embed_:data = rearrange(data[mask], '(c n) d -> c n d', c=c)";
-        "CosineSimCodebook.expire_codes_:batch_samples = rearrange(batch_samples[mask], '(c n) d -> c n d', c=c)";
-        "vq.forward:mask = lens_to_mask(lens, x.shape[1])"; "vq.forward:masked_out_value = orig_input";
-        "vq.forward:loss_mask = mask"; "vq.forward:loss = loss[loss_mask].mean()";
-        "vq.forward:masked_out_value = torch.zeros_like(orig_input)";
-        "vq.forward:einx.where('b n, b n d, b n d -> b n d', mask, quantize, masked_out_value)";
-        "vq.forward:einx.where('b n, b n ..., -> b n ...', mask, embed_ind, -1)";
-        "vq.forward:loss_mask = repeat(mask, 'b n -> c (b h) n', c=loss.shape[0], h=loss.shape[1] // mask.shape[0])";
-        "vq.forward:unique_code_ids = torch.unique(embed_ind[mask] if exists(mask) else embed_ind)";
-        "vq.forward:ce_loss_mask = mask"; "vq.forward:loss_mask = mask";
-        "vq.forward:commit_loss = commit_loss[loss_mask].mean()";
-        "vq.forward:ce_loss_mask = repeat(ce_loss_mask, 'b n -> b n h', h=heads)";
-        "vq.forward:embed_ind.masked_fill_(~ce_loss_mask, -1)";
-        "vq.forward:loss_mask = repeat(loss_mask, 'b n -> c (b h) n', c=commit_loss.shape[0], h=commit_loss.shape[1] // mask.shape[0])";
-        "vq.ce:F.cross_entropy(rearrange(distances, dist_einops_eq, b=shape[0]), codes, ignore_index=-1)";
-        "lfq.forward:input_for_entropy = original_input[mask]";
-        "lfq.forward:sampled_input = input_for_entropy[rand_mask]";
-        "lfq.forward:commit_loss = commit_loss[mask]"].
+  p_mask.p_mask = pinned_p_mask.
 Proof. exact (@pin_p_mask). Qed.
 Print Assumptions C09_tie_mask_dataflow.
-
